@@ -8,35 +8,46 @@
    where the rectilinear descriptions go through the metric scale of GridEquivDefs.
    Invariants: the metric scales are exactly 1 (ScaleIsOne), hence the step relations coincide and all three
    runs stay equal (AllEqual); scaled differences stay integral (no rounding hidden in the model).
-   Negative instance: reference spacing without the division by the Courant number.                       *)
+   They also resolve to the same edge arrays (EdgesAgree, PlacementAgrees: origin centred per axis from that
+   axis' own cell count).
+   Negative instances: reference spacing without the division by the Courant number; z origin of the uniform
+   policy computed from the y cell count.                       *)
 EXTENDS GridEquivDefs
 
-CONSTANTS MaxN, MaxD, MaxT, Variant
+CONSTANTS MaxN, MaxD, MaxT, Variant, Volumes   \* Volumes: set of 3-D shapes for the edge/origin rule
 Descs == {"uniform", "rect", "quasi"}
-VARIABLES n, d, ini, E, H, pc, t
-vars == << n, d, ini, E, H, pc, t >>
+VARIABLES n, d, shp, ini, E, H, pc, t
+vars == << n, d, shp, ini, E, H, pc, t >>
 
 W == EqualWidths(n, d)
 Ref == RefSpacing(d, Variant)
 Mat(k) == [ i \in 1..k |-> 1 + (i % 2) ]
 F0(k, i0, f, ft) == [ i \in 1..k |-> IF i0 = 0 THEN i + (IF ft = "H" THEN 2 ELSE 0) ELSE IF f = ft /\ i = i0 THEN 1 ELSE 0 ]
 
-Init == /\ n \in 2..MaxN /\ d \in 1..MaxD
+Init == /\ n \in 2..MaxN /\ d \in 1..MaxD /\ shp \in Volumes
         /\ ini \in { << "dense", 0 >> } \cup ({"E", "H"} \X (1..n))
         /\ E = [ g \in Descs |-> F0(n, ini[2], ini[1], "E") ]
         /\ H = [ g \in Descs |-> F0(n, ini[2], ini[1], "H") ]
         /\ pc = "E" /\ t = 0
 UpdE == /\ pc = "E" /\ t < MaxT
         /\ E' = [ g \in Descs |-> StepE1(E[g], H[g], Mat(n), g, W, Ref) ]
-        /\ pc' = "H" /\ UNCHANGED << n, d, ini, H, t >>
+        /\ pc' = "H" /\ UNCHANGED << n, d, shp, ini, H, t >>
 UpdH == /\ pc = "H"
         /\ H' = [ g \in Descs |-> StepH1(E[g], H[g], g, W, Ref) ]
-        /\ pc' = "E" /\ t' = t + 1 /\ UNCHANGED << n, d, ini, E >>
+        /\ pc' = "E" /\ t' = t + 1 /\ UNCHANGED << n, d, shp, ini, E >>
 Next == UpdE \/ UpdH
 Spec == Init /\ [][Next]_vars
 
 TypeOK == pc \in {"E", "H"} /\ t \in 0..MaxT /\ \A g \in Descs : Len(E[g]) = n /\ Len(H[g]) = n
 \* C38
 AllEqual == \A g \in Descs : E[g] = E["uniform"] /\ H[g] = H["uniform"]
+\* the three descriptions resolve to the same edge arrays on every axis (origin from that axis' own cell count), so an
+\* object pinned at a physical coordinate lands on the same cell in all of them
+EdgesAgree == \A g \in Descs : \A a \in 1..3 : Edges2(g, shp, a, d, Variant) = Edges2("rect", shp, a, d, "ok")
+PlacementAgrees ==
+    \A g \in Descs : \A a \in 1..3 : \A i \in 0..shp[a] :
+        NearestEdge(Edges2(g, shp, a, d, Variant), shp[a], Edges2("rect", shp, a, d, "ok")[i]) = i
 ScaleIsOne == \A i \in 1..n : IsOne(ScaleFwd(W, Ref)[i]) /\ IsOne(ScaleBwd(W, Ref)[i])
+VolumesQ == { <<2,4,6>>, <<4,2,2>> }
+VolumesT == { <<2,4,6>>, <<4,2,2>>, <<6,8,10>>, <<2,2,2>>, <<4,6,2>> }
 =============================================================================
